@@ -231,6 +231,7 @@ def run(ctx):
     ctx.floor("judged:translate", ctx.pick(100, 3000))
     ctx.floor("judged:strand_specific", ctx.pick(50, 3000))
     ctx.floor("judged:genomic_sequence[stranded]", ctx.pick(5, 300))
+    ctx.floor("lazy_selection_inputs", ctx.pick(50, 1000))       # the un-decoded / lazy-view variants must actually have run
 
 
 def replay(ctx, w):
